@@ -17,10 +17,10 @@ EXTENDS VoteSummaryMC
 
 Trace == ndJsonDeserialize("trace.ndjson")
 VARIABLES l,    \* next event
-          obs   \* result logged by the last event (0 = none)
-tvars == <<l, obs, pow, cfg, bits, keys, sum, hist>>
+          obs,  \* result logged by the last event
+          has   \* BOOLEAN: obs is meaningful (FALSE after a reset)
+tvars == <<l, obs, has, pow, cfg, bits, keys, sum, hist>>
 
-ToSet(q) == {q[i] : i \in 1..Len(q)}
 Ev == Trace[l]
 TCfg(p) == [pow |-> p, kinds |-> AllKinds, entries |-> TRUE]
 
@@ -32,7 +32,7 @@ ObsSummary(o) == [avail |-> o.avail,
                   most  |-> [prevote |-> o.most.prevote, precommit |-> o.most.precommit]]
 ObsDist(o, k) == [avail |-> o.dist[k].avail, present |-> o.dist[k].present, bp |-> MapOf(o.dist[k].bp)]
 
-TInit == /\ l = 1 /\ obs = 0
+TInit == /\ l = 1 /\ obs = 0 /\ has = FALSE
          /\ pow = <<1>> /\ cfg = TCfg(<<1>>)
          /\ bits = NoBits /\ keys = NoKeys
          /\ sum = SummaryAsCoded
@@ -46,7 +46,7 @@ Reset ==
              tot |-> [prevote |-> 0, precommit |-> 0],
              bp |-> [prevote |-> <<>>, precommit |-> <<>>],
              most |-> [prevote |-> Nil, precommit |-> Nil]]
-  /\ obs' = 0
+  /\ obs' = 0 /\ has' = FALSE
 
 \* a whole state at once: it is reachable by AddVote/AddEntry steps from the empty maps
 Load ==
@@ -57,11 +57,11 @@ Load ==
      IN /\ \A k \in AllKinds : \A t \in Target : nb[k][t] # {} => t \in nk[k]
         /\ bits' = nb /\ keys' = nk
         /\ sum' = SummaryOf(DoubleCount, nb, nk)
-  /\ obs' = Ev.obs
+  /\ obs' = Ev.obs /\ has' = TRUE
   /\ UNCHANGED <<pow, cfg>>
 
-Vote  == Ev.op = "vote"  /\ AddVote(Ev.kind, Ev.val, Ev.tgt) /\ obs' = Ev.obs
-Entry == Ev.op = "entry" /\ AddEntry(Ev.kind, Ev.tgt) /\ obs' = Ev.obs
+Vote  == Ev.op = "vote"  /\ AddVote(Ev.kind, Ev.val, Ev.tgt) /\ obs' = Ev.obs /\ has' = TRUE
+Entry == Ev.op = "entry" /\ AddEntry(Ev.kind, Ev.tgt) /\ obs' = Ev.obs /\ has' = TRUE
 
 TNext == /\ l <= Len(Trace)
          /\ l' = l + 1
@@ -82,14 +82,14 @@ SiteOf(k) == IF k = "prevote" THEN "SetPrevotePowers" ELSE "SetPrecommitPowers"
 
 \* conformance: the logged result is the specification's result
 Conforms ==
-  obs # 0 =>
+  has =>
     /\ (ObsSummary(obs) = sum) \/ Say("MISMATCH", "summary", "Set*Powers", "")
     /\ (obs.step = Step(ObsSummary(obs))) \/ Say("MISMATCH", "step", "GetStepFromVoteSummary", "")
     /\ \A k \in AllKinds : (ObsDist(obs, k) = DistAsCoded(k)) \/ Say("MISMATCH", "dist", "newVoteDistribution", k)
 
 \* the C06 predicates on the observed summary
 ObsPredicates ==
-  obs # 0 =>
+  has =>
     LET s == ObsSummary(obs) IN
     /\ Chk(PAvailable(s), "AvailableIsSum", "SetAvailablePower", "")
     /\ \A k \in AllKinds :
